@@ -400,3 +400,32 @@ def eval_exprs(exprs, prelude="", limits=None, chunk=60, per_req_timeout=10.0):
 def lit(n):
     """xray source text of an integer literal (negative numbers parenthesised)."""
     return str(n) if n >= 0 else f"(-{-n})"
+
+
+def generic_replay(path, prop):
+    """./check Cxx --replay <file> for checks without their own replay(): re-run the recorded input on the
+    implementation (and the model, if a model request was recorded) and show it next to the expectation."""
+    d = json.load(open(path))
+    rp = d.get("replay", {})
+    print("recorded violation:", d.get("key"), "-", d.get("what", "")[:500])
+    shown = False
+    if isinstance(rp, dict) and "harness" in rp:
+        r = run_harness([rp["harness"]])[0]
+        print("implementation now:", json.dumps(r)[:2000])
+        shown = True
+    elif isinstance(rp, dict) and "src" in rp:
+        req = {"op": "run", "src": rp["src"], "get": rp.get("get", []), "limits": rp.get("limits", {})}
+        r = run_harness([req])[0]
+        print("implementation now:", json.dumps(r)[:2000])
+        shown = True
+    if isinstance(rp, dict) and rp.get("model"):
+        try:
+            print("model now         :", run_model([rp["model"]])[0][:2000])
+        except Exception as e:
+            print("model: ", e)
+    if isinstance(rp, dict) and "expected" in rp:
+        print("expected          :", json.dumps(rp["expected"])[:2000])
+    if not shown:
+        print("the replay file names a broken obligation / correspondence rather than an input:", json.dumps(rp)[:2000])
+    print(f"(re-run `./check {prop}` for the verdict on the current tree)")
+    return 0
